@@ -205,10 +205,21 @@ def k_nul(x: Any, in_slice: bool) -> Optional[Any]:
     return None
 
 
+def leftmost_brace_or_lambda(p: Any) -> bool:
+    """astor's text of p starts with a brace (set/dict display or comprehension at the left edge) or is a lambda."""
+    if p[0] in (8, 9) or (p[0] == 13 and p[1] in (2, 10, 11)):
+        return True
+    if p[0] == 4:
+        return leftmost_brace_or_lambda(p[2])
+    if p[0] in (2, 10, 11):
+        return leftmost_brace_or_lambda(p[1])
+    return False
+
+
 def k_fstring(x: Any, in_slice: bool) -> Optional[Any]:
     if x[0] == 13 and x[1] == 9:
         def bad(p: Any) -> bool:
-            return not isinstance(p, str) and (p[0] in (8, 9) or (p[0] == 13 and p[1] in (2, 10, 11)))
+            return not isinstance(p, str) and leftmost_brace_or_lambda(p)
         if any(bad(p) for p in x[2]):
             return [13, 9, [[1, 'fv'] if bad(p) else p for p in x[2]]]
     return None
@@ -248,6 +259,16 @@ def unwrapped_text(nodes: List[List[Any]]) -> str:
         out.append(t)
         i += 1
     return ''.join(out)
+
+
+def docutils_unescape(s: str) -> str:
+    """docutils.nodes.unescape, which Text.astext() applies: NUL is docutils' internal escape mark and is dropped together
+    with a space or newline that follows it."""
+    if '\x00' not in s:
+        return s
+    for sep in ('\x00 ', '\x00\n', '\x00'):
+        s = ''.join(s.split(sep))
+    return s
 
 
 def model_params(cfg: Tuple[int, int, int]) -> List[int]:
@@ -489,7 +510,7 @@ class Check(PropertyCheck):
             m_complete, m_lw, m_fuel, m_nodes = m
             if not m_fuel:
                 raise RuntimeError('model ran out of fuel on %r' % (c,))
-            mn = [[k, txt(t).replace('\x00 ', '').replace('\x00\n', '').replace('\x00', '')] for k, t in m_nodes]
+            mn = [[k, docutils_unescape(txt(t))] for k, t in m_nodes]
             canon_model = [bool(m_complete), bool(m_lw), mn]
             canon_impl = [o['complete'], o['lw_mutated'], o['nodes']]
             self.count('complete' if o['complete'] else 'truncated')
@@ -523,7 +544,7 @@ class Check(PropertyCheck):
                     if s is None:
                         want = None
                         break
-                    want.extend(s)
+                    want.extend(docutils_unescape(x) for x in s)
                 if want is not None:
                     ntok += 1
                     if want != o['toks'] and len(out) < 40:
@@ -539,14 +560,18 @@ class Check(PropertyCheck):
         self.stats['token_views_checked'] = ntok
         self.stats['read_print_instances'] = nread
 
-        # oracle
-        nor = 0
-        for c, o, v in zip(cases, impl, verdicts):
-            if v:
-                nor += 1
-                if nor <= 400:
-                    out.append(Violation('oracle', v, case=c, observed={k: o.get(k) for k in ('text', 'complete', 'error', 'lw_mutated')}))
-        self.stats['oracle_failures_before_known_findings'] = nor
+        # oracle: failures explained by a recorded defect class are verified in one batch (the failure must disappear when
+        # the instances of the class are replaced by harmless siblings); unexplained ones are reported first
+        fails = [(c, o, v) for c, o, v in zip(cases, impl, verdicts) if v]
+        self.stats['oracle_failures_before_known_findings'] = len(fails)
+        self.explain_batch([(c, v) for c, _, v in fails])
+        per_class: Dict[str, int] = {}
+        for c, o, v in sorted(fails, key=lambda t: len(json.dumps(t[0]))):
+            kid = self._explained.get(json.dumps(c)) or ''
+            per_class[kid] = per_class.get(kid, 0) + 1
+            if per_class[kid] <= (20 if kid == '' else 3):
+                out.append(Violation('oracle', v, case=c, observed={k: o.get(k) for k in ('text', 'complete', 'error', 'lw_mutated')}))
+        self.stats['oracle_failures_by_known_class'] = {k or 'UNEXPLAINED': n for k, n in per_class.items()}
 
         for c in [cases[0], cases[len(cases) // 3], cases[len(cases) // 2], cases[-1]]:
             self.sample({'expr': c[0], 'linelen': c[1], 'maxlines': c[2], 'linebreakok': c[3], 'ctx': c[4]})
@@ -593,6 +618,9 @@ class Check(PropertyCheck):
                         pert.append(s[:k] + [s[k + 1], s[k]] + s[k + 2:])
                     else:
                         pert.append(s[:k] + [self.rng.choice(pool)] + s[k + 1:])
+        # a bare top-level tuple (a, b without parentheses) is Python too but is never displayed; the strings are
+        # validated inside one pair of parentheses so that both readers see the same language
+        pert = [[2] + s + [3] for s in pert]
         cache: Dict[str, Optional[List[str]]] = {}
         texts = []
         for s in pert:
@@ -636,6 +664,7 @@ class Check(PropertyCheck):
             impl = lib.run_impl_worker(WORKER, chunk, jobs=16)
             verdicts = self.run_oracle(chunk, impl)
             known, _ = lib.load_known_findings(self.id)
+            self.explain_batch([(c, v) for c, v in zip(chunk, verdicts) if v])
             for c, o, v in zip(chunk, impl, verdicts):
                 if v:
                     viol = Violation('oracle', v, case=c, observed={k: o.get(k) for k in ('text', 'complete', 'error')})
@@ -647,26 +676,50 @@ class Check(PropertyCheck):
                 return found
         return found
 
+    _explained: Dict[str, Optional[str]] = {}
+
+    def explain_batch(self, items: List[Tuple[List[Any], str]]) -> None:
+        """For each failing (case, verdict): the id of the recorded defect class that explains it, or None."""
+        self._explained = dict(self._explained)
+        todo: List[Tuple[str, List[Any], List[str]]] = []
+        for c, v in items:
+            key = json.dumps(c)
+            if key in self._explained:
+                continue
+            e, ll, ml, lb, ctx = c
+            if v.startswith('linewrap-node:'):
+                self._explained[key] = 'C15-linewrap-node-mutated' if (lb == 0 and ll > 0) else None
+                continue
+            if not v.startswith('meaning:'):
+                self._explained[key] = None
+                continue
+            fixed, hits = repair(e)
+            if not hits:
+                self._explained[key] = None
+                continue
+            # the failure must already be there without any line limit (same parent context, linebreakok on or off), and
+            # must be gone there once the instances of the recorded classes are replaced by harmless siblings
+            todo.append((key, [[e, 0, 0, 1, ctx], [e, 0, 0, 0, ctx]], [[fixed, 0, 0, 1, ctx], [fixed, 0, 0, 0, ctx]], hits))
+        if todo:
+            cs = [c for t in todo for c in t[1] + t[2]]
+            obs = lib.run_impl_worker(WORKER, cs, jobs=16)
+            vs = self.run_oracle(cs, obs)
+            for i, (key, _, _, hits) in enumerate(todo):
+                o1, o0, f1, f0 = vs[4 * i: 4 * i + 4]
+                ok = any(vo is not None and vo.startswith('meaning:') and vf is None for vo, vf in ((o1, f1), (o0, f0)))
+                self._explained[key] = hits[0] if ok else None
+
     def classify_known(self, v: Violation, known: List[dict]) -> Optional[dict]:
         if v.kind != 'oracle' or not v.case:
             return None
-        by_id = {k['id']: k for k in known}
-        e, ll, ml, lb, ctx = v.case
-        if v.what.startswith('linewrap-node:'):
-            k = by_id.get('C15-linewrap-node-mutated')
-            return k if (k and lb == 0 and ll > 0) else None
-        if not v.what.startswith('meaning:'):
-            return None
-        fixed, hits = repair(e)
-        hits = [h for h in hits if h in by_id]
-        if not hits:
-            return None
-        # the violation must disappear when every instance of the recorded classes is replaced by a harmless sibling
-        c2 = [fixed, ll, ml, lb, ctx]
-        o2 = lib.run_impl_worker(WORKER, [c2])[0]
-        if self.run_oracle([c2], [o2])[0] is not None:
-            return None
-        return by_id[hits[0]]
+        key = json.dumps(v.case)
+        if key not in self._explained:
+            self.explain_batch([(v.case, v.what)])
+        kid = self._explained.get(key)
+        for k in known:
+            if k['id'] == kid:
+                return k
+        return None
 
     def replay(self, data: Any) -> int:
         case = data['input']
